@@ -2,6 +2,7 @@ import FpgoVerif.Proofs.C15Mailbox
 import FpgoVerif.Proofs.C15Bcq
 import FpgoVerif.Proofs.C15Cor
 import FpgoVerif.Proofs.C15Pool
+import FpgoVerif.Proofs.C15PoolProgress
 import FpgoVerif.Gen.Skeletons
 import FpgoVerif.Gen.C15Bodies
 /-! Property theorems for C15 — "Shutdown is safe at any moment".  One transition system per component
@@ -214,6 +215,40 @@ theorem C15_pool_after_reports {cap qc s j ch s' nx} (h : Pl.Reach cap qc true s
   simp [Pl.step, hf] at hs1
   obtain ⟨rfl, rfl⟩ := hs1
   simp
+
+/-- no deadlock, Close closes the job queue (the default `isJobQueueClosedWhenClose`): once Close has begun, as long
+    as any goroutine is inside the pool (a Schedule mid-call, the closer, a worker) there is an occupied program
+    counter kind whose goroutine can take its next atom whatever job/parameters it carries — WITHOUT the workers'
+    expiry timer (`choice = false`): lock waiters are released by the lock holder, which never blocks, and idle
+    workers by the closed job channel.  Jobs terminate (gate open). -/
+theorem C15_pool_nodeadlock {cap s} (h : Pl.Reach cap true true s) (hcs : s.closeStarted = true)
+    (hg : s.gate = true) (hb : ∃ k, 0 < s.cnt k) :
+    ∃ k, 0 < s.cnt k ∧ ∀ pc, Pl.kind pc = k → ∃ s' nx, Pl.gstep s pc false = some (s', nx) :=
+  Pl.progress (Pl.inv_reach h) hg false (fun _ => ⟨Pl.qclose_const h, hcs⟩) hb
+
+/-- no deadlock, any setting of `isJobQueueClosedWhenClose` and at any time (before, during, after the Close):
+    the same with the expiry timer of idle workers allowed to fire (`choice = true`) — when the job queue stays
+    open an idle worker notices the pool flag only after its `time.After` -/
+theorem C15_pool_nodeadlock_timer {cap qc s} (h : Pl.Reach cap qc true s) (hg : s.gate = true)
+    (hb : ∃ k, 0 < s.cnt k) :
+    ∃ k, 0 < s.cnt k ∧ ∀ pc, Pl.kind pc = k → ∃ s' nx, Pl.gstep s pc true = some (s', nx) :=
+  Pl.progress (Pl.inv_reach h) hg true (fun h => by cases h) hb
+
+/-- non-vacuity: an idle worker waits on the empty job channel while the Close is between setting the queue
+    flag and closing the channels, jobs may finish -/
+example : ∃ s, Pl.Reach 2 true true s ∧ s.closeStarted = true ∧ s.gate = true ∧ 0 < s.cnt .w3 ∧ 0 < s.cnt .qc1 ∧
+    s.jobs = [] := by
+  let acts : List (Option Bool × Pl.PC) :=
+    [(some false, .w0), (some false, .w1), (some false, .w2), (none, .pc0), (some false, .pc0), (some false, .pc1)]
+  have h : ((Pl.runActs (Pl.init 2 true true) acts).map (fun s => s.closeStarted && decide (0 < s.cnt .w3) &&
+      decide (0 < s.cnt .qc1) && s.jobs.isEmpty)) = some true := by decide
+  cases hr : Pl.runActs (Pl.init 2 true true) acts with
+  | none => simp [hr] at h
+  | some s =>
+    refine ⟨{ s with gate := true }, Pl.Reach.gate (Pl.runActs_reach acts Pl.Reach.init hr), ?_⟩
+    simp [hr] at h
+    obtain ⟨⟨⟨h1, h2⟩, h3⟩, h4⟩ := h
+    exact ⟨h1, rfl, h2, h3, by simpa [List.isEmpty_iff] using h4⟩
 
 /-! ## Executor: the driver's re-tabulation of the counters is the identity, so every state the directed-schedule
     executor visits is a `Reach` state of the component -/
